@@ -1,4 +1,4 @@
 SPECIFICATION Spec
 CONSTANTS Ns = {4, 32} Rs = {1, 2} Spans = {1, 3} MaxT = 3 Nppr = {2}
-INVARIANTS Inv1 Inv2 Inv3 Inv4 Inv5 Inv6
+INVARIANTS Inv1 Inv2 Inv3 Inv4 Inv5 Inv6 Inv7
 CHECK_DEADLOCK FALSE
